@@ -115,31 +115,30 @@ def run(ctx):
 
     # ---- C12.2 the flag gates every read and is never reset
     n = 0
-    for g, bb, kind, x in facts.field_writes(CC, FLAG):
+    ctx.ob("C12.2", "flag-init|%s" % CC, "a new connection starts with the gate in one definite state (the open state)", len(PM.flag_open) == 1 and None not in PM.flag_open, PM.file, str(sorted(map(str, PM.flag_open))))
+    for g, bb, kind, v in PM.flag_writes:
         n += 1
-        if kind == "construct":
-            r = x["rhs"]
-            c = op_const(r["ops"][r["fields"].index(FLAG)])
-            ctx.ob("C12.2", "flag-init|%s" % g.id, "a new connection starts with the flag clear", c is False, g.loc(bb))
-        else:
-            c = op_const(x["rhs"]["op"]) if kind == "assign" and x["rhs"]["rv"] == "use" else None
-            ctx.ob("C12.2", "flag-write|%s" % g.id, "the flag is only ever set (never reset), and only by the connection parser", g.file == PM.file and c is True, g.loc(bb))
+        if kind != "construct":
+            ctx.ob("C12.2", "flag-write|%s" % g.id, "the flag is only ever set (never reset to its initial state), to a known value, and only by the connection parser",
+                   g.file == PM.file and v is not None and v not in PM.flag_open, g.loc(bb), str(v))
     ctx.floor("C12.2 flag writes", n, 2)
-    st = symex.Sym(f)
-    st.write_key((1, "*", "." + FLAG), ("const", True, "true", None))
-    gp = [p for p in absint.explore(f, 0, st) if p.end[0] not in ("diverge", "resume", "terminate", "unreachable")]
-    io = []
-    for p in gp:
-        for e in p.events:
-            if e[1] == "call" and (e[2] == PM.read_def or (facts.effects_at(f, e[0]) & {"BLOCK-IO", "WAIT-TURN-R", "WAIT-TURN-W", "CHAN-RECV"})):
-                io.append(short(e[2]))
-    ok = bool(gp) and all(p.end[0] == "return" and p.ret() == ("none",) for p in gp) and not io
-    ctx.ob("C12.2", "%s|flag-set-returns-none" % PM.cc_next.id, "with the flag set, next() returns None without touching the socket (every call is gated)", ok, "%s:%d" % (f.file, f.line),
-           None if ok else "%s %s" % ([Q._ret_str(p) for p in gp][:3], io[:3]))
-    st = symex.Sym(f)
-    st.write_key((1, "*", "." + FLAG), ("const", False, "false", None))
-    gp = absint.explore(f, 0, st, stop=lambda bb, t, s: "read" if t["t"] == "call" and call_name(t) == PM.read_def else None)
-    ctx.ob("C12.2", "%s|flag-clear-reads" % PM.cc_next.id, "with the flag clear, next() goes on to read a request", any(p.end[0] == "stop" for p in gp), "%s:%d" % (f.file, f.line))
+    for nv in sorted(x for x in PM.flag_closed if x is not None):
+        st = symex.Sym(f)
+        st.write_key((1, "*", "." + FLAG), PM.flag_term(nv))
+        gp = [p for p in absint.explore(f, 0, st) if p.end[0] not in ("diverge", "resume", "terminate", "unreachable")]
+        io = []
+        for p in gp:
+            for e in p.events:
+                if e[1] == "call" and (e[2] == PM.read_def or (facts.effects_at(f, e[0]) & {"BLOCK-IO", "WAIT-TURN-R", "WAIT-TURN-W", "CHAN-RECV"})):
+                    io.append(short(e[2]))
+        ok = bool(gp) and all(p.end[0] == "return" and p.ret() == ("none",) for p in gp) and not io
+        ctx.ob("C12.2", "%s|flag-set-returns-none" % PM.cc_next.id, "with the flag set, next() returns None without touching the socket (every call is gated)", ok, "%s:%d" % (f.file, f.line),
+               None if ok else "%s %s" % ([Q._ret_str(p) for p in gp][:3], io[:3]))
+    for nv in sorted(x for x in PM.flag_open if x is not None):
+        st = symex.Sym(f)
+        st.write_key((1, "*", "." + FLAG), PM.flag_term(nv))
+        gp = absint.explore(f, 0, st, stop=lambda bb, t, s: "read" if t["t"] == "call" and call_name(t) == PM.read_def else None)
+        ctx.ob("C12.2", "%s|flag-clear-reads" % PM.cc_next.id, "with the flag clear, next() goes on to read a request", any(p.end[0] == "stop" for p in gp), "%s:%d" % (f.file, f.line))
 
     # ---- C12.3 half-close
     half_rules(ctx)
@@ -223,7 +222,7 @@ def half_rules(ctx):
     n = 0
     for h, bb, t in facts.all_calls(lambda t: t.get("name") == "shutdown"):
         n += 1
-        ok = h.file in (rts_file, conn_file) or h.id == sdrop.id or h.id.startswith(sdrop.id + "::")
+        ok = h.file in (rts_file, conn_file) or (h.id, bb) in shared.server_drop_own_sites(facts)
         ctx.ob("C12.3", "shutdown-site|%s" % h.id, "sockets are shut down only by the halves' destructor (and Server::drop's throw-away self-connection)", ok, h.loc(bb))
     ctx.floor("C12.3 shutdown call sites", n, 3)
 
